@@ -631,6 +631,13 @@ func (fr *frame) prepareCall(c *ssa.CallCommon) (Value, []Value) {
 			panic(p.unsupported("method " + c.Method.Name() + " on opaque error"))
 		}
 		if op, ok := recv.v.(*Opaque); ok && op != nil {
+			if op.kind == "hasher" {
+				var args []Value
+				for _, a := range c.Args {
+					args = append(args, fr.get(a))
+				}
+				return &ssa.Builtin{}, []Value{p.hasherCall(op, c.Method.Name(), args), builtinRet{}}
+			}
 			panic(p.unsupported("interface method " + c.Method.Name() + " on opaque " + op.kind))
 		}
 		m := p.e.prog.LookupMethod(recv.t, c.Method.Pkg(), c.Method.Name())
